@@ -24,6 +24,13 @@ CHECKS = {
         note="rows of the apply operator have no Arguments field and are outside the per-row clause; one listed finding (i rows)",
         technique="runtime trace monitoring against a reference evaluator (online row oracle) + differential against the real binary",
     ),
+    "C13": dict(
+        category="exploration",
+        text="Runtime monitor on the reported symbol table of every build of generated programs: each function entry whose hash occurs in the emitted program is resolved to its code (own subtree search and the repository's path_to_function/rewrite_in_program route), the code is executed with clvmr on generated argument lists and compared with an independent reference interpretation of the named source function; argument-list entries are compared with the source; unoptimised builds are checked for an entry per reachable non-inline function; classic tables come from the real run binary.",
+        design_ref="DESIGN.md §4 C13",
+        note="compiler-synthesised functions are checked for code presence only",
+        technique="runtime monitoring with a reference-model oracle over extracted function code",
+    ),
     "C18": dict(
         category="exploration",
         text="Runtime monitor at two boundaries: the dependency listing of the real `run -M` / Python check_dependencies is compared with the files a real compilation of the same generated include graph actually opens (strace openat log), for random graphs, shadowed duplicates, embed-file kinds, dialects and search-path orders.",
